@@ -7,20 +7,25 @@
    engaged ones) and leaves the model in state s.  [spec_run] is the same program on std::optional, i.e. on
    [option Z].  [st_led s] is the ledger of the contained objects.
 
-   RESULT: the optional-semantics half holds for every sequence (C40_refines_optional); the balanced-lifetimes
-   half is FALSE (C40_refuted): the move constructor and move assignment null the source's pointer without
-   destroying the moved-from object.  Outside that domain both halves hold exactly (C40_holds_except). *)
+   HISTORY.  The model of the original code refuted the balanced-lifetimes half (move constructor and move
+   assignment nulled the source's pointer without destroying the moved-from object: 2 constructed, 1 destroyed).
+   The code was repaired (fix: commit in /repo, "destroy before nulling"); the model below is the repaired code, the
+   property now holds for ALL sequences, and the former witnesses are kept as regression facts (C40_regression). *)
 From Coq Require Import ZArith List Bool.
 From DV Require Import Base.Life Model.OpResultModel Proofs.C40Proofs.
 Import ListNotations.
 Local Open Scope Z_scope.
 
-(* The property at full strength (not a theorem: see C40_refuted). *)
+(* The property at full strength. *)
 Definition C40_full_statement : Prop :=
   forall nv ops s, run (init nv) ops = Some s ->
     (exists sp, spec_run (repeat None nv) ops = Some sp /\ vars_rel (st_vars s) sp = true) /\
     ok (st_led s) /\
     (all_gone (st_vars s) = true -> balanced (st_led s) /\ n_ctor (st_led s) = n_dtor (st_led s)).
+
+Theorem C40_holds : C40_full_statement.
+Proof. exact holds_proof. Qed.
+Print Assumptions C40_holds.
 
 (* Optional semantics, for ALL operation sequences: the variables of the OpResult program are related to those of
    the std::optional program by [vars_rel]: identical, except that a variable which std::optional leaves engaged
@@ -30,50 +35,39 @@ Theorem C40_refines_optional : forall nv ops s, run (init nv) ops = Some s ->
 Proof. exact refines_optional_proof. Qed.
 Print Assumptions C40_refines_optional.
 
-(* Balanced lifetimes are refuted: default-construct a, emplace 7, move-construct b from a, destroy both.
-   Two objects constructed, one destructor call, the moved-from object in a's buffer is never destroyed. *)
-Theorem C40_refuted : exists s,
-  run (init 2) [ODefault 0; OEmplace 0 7; OMove 1 0; ODestroy 0; ODestroy 1] = Some s /\
-  all_gone (st_vars s) = true /\ ok (st_led s) /\
-  n_ctor (st_led s) = 2 /\ n_dtor (st_led s) = 1 /\ lget (st_led s) (slot 0) = MovedFrom /\ ~ balanced (st_led s).
-Proof. exact refuted_proof. Qed.
-Print Assumptions C40_refuted.
-
-Theorem C40_full_statement_false : ~ C40_full_statement.
-Proof. exact full_statement_false_proof. Qed.
-Print Assumptions C40_full_statement_false.
-
-(* Consequence of the same defect: re-using the moved-from OpResult constructs a new object on top of the one that
-   was never destroyed. *)
-Theorem C40_refuted_overwrite : exists s,
-  run (init 2) [ODefault 0; OEmplace 0 7; OMove 1 0; OEmplace 0 8; ODestroy 0; ODestroy 1] = Some s /\
-  all_gone (st_vars s) = true /\
-  status (st_led s) = LErr ConstructOverLive (slot 0) /\ n_ctor (st_led s) = 3 /\ n_dtor (st_led s) = 2.
-Proof. exact refuted_overwrite_proof. Qed.
-Print Assumptions C40_refuted_overwrite.
-
-(* Everything holds on the complement of the finding's domain: for every sequence in which no move construction /
-   move assignment takes an ENGAGED OpResult as its source ([has_engaged_move] = false; moves of disengaged
-   values and self-move-assignment are inside), the variables are EXACTLY those of the std::optional program, no
-   lifetime misuse occurs, the live objects are exactly the contents of the engaged variables, and when all
-   variables have been destroyed every constructed object has been destroyed exactly once. *)
-Theorem C40_holds_except : forall nv ops s,
+(* ... and exactly equal where no engaged value is moved *)
+Theorem C40_exact_without_engaged_move : forall nv ops s,
   run (init nv) ops = Some s -> has_engaged_move (init nv) ops = false ->
-  spec_run (repeat None nv) ops = Some (st_vars s) /\
+  spec_run (repeat None nv) ops = Some (st_vars s).
+Proof. exact exact_proof. Qed.
+Print Assumptions C40_exact_without_engaged_move.
+
+(* Balanced lifetimes, for ALL operation sequences: no lifetime misuse ever occurs (no double destroy, no
+   construction over a live object, no use after destroy), at every point the live objects are exactly the contents
+   of the engaged variables, and when all variables have been destroyed every constructed object (temporaries
+   included) has been destroyed exactly once. *)
+Theorem C40_opresult_balanced : forall nv ops s, run (init nv) ops = Some s ->
   ok (st_led s) /\
   (forall i t, vget (st_vars s) i = Some (Some t) -> lget (st_led s) (slot i) = Alive) /\
   (forall id, is_live (lget (st_led s) id) = true -> exists i t, id = slot i /\ vget (st_vars s) i = Some (Some t)) /\
   (all_gone (st_vars s) = true -> balanced (st_led s) /\ n_ctor (st_led s) = n_dtor (st_led s)).
-Proof. exact holds_except_proof. Qed.
-Print Assumptions C40_holds_except.
+Proof. exact opresult_balanced_proof. Qed.
+Print Assumptions C40_opresult_balanced.
 
-(* the hypotheses of C40_holds_except are satisfiable by a non-trivial program: value/copy/move(of a disengaged
-   value)/assignments/emplace/poke over three variables, ending with all destroyed: 6 objects constructed
-   (temporary included), 6 destroyed *)
+(* Regression: the witnesses of the repaired defect.  (all destroyed?, constructions, destructions, live, no misuse)
+   move construction from an engaged OpResult; move assignment; re-use of the moved-from OpResult. *)
+Example C40_regression :
+  summary [ODefault 0; OEmplace 0 7; OMove 1 0; ODestroy 0; ODestroy 1] = Some (true, 2, 2, 0, true) /\
+  summary [OValueMove 0 5; ODefault 1; OMoveAssign 1 0; ODestroy 0; ODestroy 1] = Some (true, 3, 3, 0, true) /\
+  summary [ODefault 0; OEmplace 0 7; OMove 1 0; OEmplace 0 8; ODestroy 0; ODestroy 1] = Some (true, 3, 3, 0, true).
+Proof. exact regression_proof. Qed.
+
+(* the hypotheses are satisfiable by a non-trivial program: value/copy/move (of engaged and disengaged values)/
+   assignments/emplace/poke over three variables, ending with all destroyed *)
 Example C40_nonvacuous :
-  let ops := [OValueMove 0 5; OCopy 1 0; ODefault 2; OMoveAssign 1 2; OCopyAssign 2 0; OEmplace 1 9; OPoke 1 4;
-              OCopyAssign 0 1; ODestroy 0; ODestroy 1; ODestroy 2] in
-  has_engaged_move (init 3) ops = false /\
+  let ops := [OValueMove 0 5; OCopy 1 0; OMove 2 1; OMoveAssign 1 2; OCopyAssign 2 0; OEmplace 1 9; OPoke 1 4;
+              OCopyAssign 0 1; OMoveAssign 2 0; ODestroy 0; ODestroy 1; ODestroy 2] in
+  has_engaged_move (init 3) ops = true /\
   option_map (fun s => (st_vars s, n_ctor (st_led s), n_dtor (st_led s), okb (st_led s))) (run (init 3) ops)
-    = Some ([None; None; None], 6, 6, true).
+    = Some ([None; None; None], 9, 9, true).
 Proof. split; vm_compute; reflexivity. Qed.
